@@ -1639,6 +1639,12 @@ where
         if !self.is_define_component_call(call) {
             return;
         }
+        // a named function expression already gives the component its own name
+        if let Some(ExprOrSpread { spread: None, expr }) = call.args.first() {
+            if matches!(&**expr, Expr::Fn(FnExpr { ident: Some(..), .. })) {
+                return;
+            }
+        }
 
         inject_define_component_option(
             call,
